@@ -9,8 +9,9 @@ parameter already equals that parameter.  A guard that compares something weaker
 dimension and band width) leaves an object with the same number of elements in its *old* shape: every later
 element access then addresses the wrong entry (C15 "operations equal their mathematical definition").
 
-Decided statically for every `if` without `else` whose condition is a disjunction of `!=` comparisons and whose
-branch assigns a field of `this` directly from a function parameter: for every such pair (field f, parameter p)
+Decided statically for every `if` without `else` whose condition is a disjunction of `!=` comparisons, each between
+state of `this` and an expression over the parameters the branch stores (so `p != nullptr`, `n != 0` are not
+instances), and whose branch assigns a field of `this` directly from a function parameter: for every such pair (field f, parameter p)
 one disjunct must compare p with f or with a const accessor that returns f (fields set in one chain
 `a = b = p` are equal by construction: testing one of them suffices).  Nothing is executed.
 Not decided: guards of other shapes (they are not instances), values computed from several parameters.
@@ -99,6 +100,25 @@ def rule_guard(ctx):
                     if f and p is not None and not inner:
                         pairs.append((f, p, m, group - {None}))
             if not pairs:
+                continue
+            # an update-if-different guard: every disjunct compares state of `this` with an expression over
+            # the parameters the branch stores (`p != nullptr`, `n != 0` are other kinds of guard: no instance)
+            stored = {p for _, p, _, _ in pairs}
+
+            def _mentions(x):
+                has_state = has_par = False
+                for m in F.walk(x):
+                    if m.get("k") == "CXXThisExpr":
+                        has_state = True
+                    elif m.get("k") == "DeclRefExpr" and m["ref"].get("dk") == "parm" and m["ref"].get("decl") in stored:
+                        has_par = True
+                return has_state, has_par
+            shape_ok = True
+            for d in ds:
+                (s0, p0), (s1, p1) = _mentions(d["c"][0]), _mentions(d["c"][1])
+                if not ((s0 and not p0 and p1 and not s1) or (s1 and not p1 and p0 and not s0)):
+                    shape_ok = False
+            if not shape_ok:
                 continue
             tested = set()
             for d in ds:
